@@ -467,16 +467,6 @@ def gen_consts():
     for k, (t, h, f, i) in env["BF2_TAGTYPE_MAP"].items():
         rows.append("(%s, (%s, %s, %s, %s))" % (cN(k), opt(t), opt(h), opt(f), opt(i)))
     out += "Definition BF2_TAGTYPE_MAP : list (N * (option N * option N * option N * option N)) :=\n  %s.\n" % clist(rows)
-    # known tag types: the list literal inside is_known_tagtype
-    fn = find_func(tree, "is_known_tagtype")
-    kt = const_eval(module_assign(tree, "known_tagtypes", fn.body), env)
-    ret = fn.body[-1]
-    want = "return any((base_tagtype <= tagtype <= end_tagtype for base_tagtype, end_tagtype in known_tagtypes))"
-    if not isinstance(ret, ast.Return) or ast.unparse(ret) != want:
-        raise TranslationError("is_known_tagtype: unexpected return expression: " + ast.unparse(ret))
-    out += "Definition known_tagtypes : list (N * N) := %s.\n" % clist(
-        ["(%s, %s)" % (cN(a), cN(b)) for a, b in kt])
-    out += "Definition is_known_tagtype (tagtype : N) : bool :=\n  existsb (fun '(lo, hi) => (lo <=? tagtype) && (tagtype <=? hi)) known_tagtypes.\n"
     out += "Definition PFID2FILTER_TO_HWCID_SPECIAL_CASES : list (list N * N) := %s.\n" % clist(
         ["(%s, %s)" % (cstr(k), cN(v)) for k, v in env["PFID2FILTER_TO_HWCID_SPECIAL_CASES"].items()])
     out += "Definition BF2_INTERFACES : list (list N * N) := %s.\n" % clist(
@@ -509,6 +499,33 @@ def gen_consts():
     f2 = [n for n in pk.body if isinstance(n, ast.FunctionDef) and n.name == "to_raw_bin_fmt"][0]
     out += "Definition der_header : bytes := %s.\n" % cbytes(const_eval(module_assign(cr, "der_header", f1.body), {}))
     out += "Definition der_header_len : N := %s.\n" % cN(const_eval(module_assign(cr, "der_header_len", f2.body), {}))
+    out += "Require Export Bec2.Gen.Pad Bec2.Gen.AesFrame Bec2.Gen.TagTypes.\n"
+    return "Consts.v", out
+
+
+def gen_tagtypes():
+    tree, env = bf3_env()
+    out = HEADER % "bec2format/bf3file.py (is_known_tagtype)"
+    out += "Open Scope N_scope.\n\n"
+    # known tag types: the list literal inside is_known_tagtype
+    fn = find_func(tree, "is_known_tagtype")
+    kt = const_eval(module_assign(tree, "known_tagtypes", fn.body), env)
+    ret = fn.body[-1]
+    want = "return any((base_tagtype <= tagtype <= end_tagtype for base_tagtype, end_tagtype in known_tagtypes))"
+    if not isinstance(ret, ast.Return) or ast.unparse(ret) != want:
+        raise TranslationError("is_known_tagtype: unexpected return expression: " + ast.unparse(ret))
+    out += "Definition known_tagtypes : list (N * N) := %s.\n" % clist(
+        ["(%s, %s)" % (cN(a), cN(b)) for a, b in kt])
+    out += "Definition is_known_tagtype (tagtype : N) : bool :=\n  existsb (fun '(lo, hi) => (lo <=? tagtype) && (tagtype <=? hi)) known_tagtypes.\n"
+    return "TagTypes.v", out
+
+
+def gen_aesframe():
+    b2 = parse("bec2format/bec2file.py")
+    cr = parse("bec2format/crypto.py")
+    aes = class_consts(cr, "AES128")
+    out = HEADER % "bec2format/bec2file.py (AesEncryptorMixin.encrypt: padding length and frame)"
+    out += "Open Scope N_scope.\n\n"
     # the AES container's padding length expression (AesEncryptorMixin.encrypt)
     enc = find_func(b2, "encrypt", "AesEncryptorMixin")
     loc = {}
@@ -550,6 +567,14 @@ def gen_consts():
     crcexpr = module_assign(b2, "crc", enc.body)
     if ast.unparse(crcexpr) != "crc8404B(plaintext).to_bytes(2, 'big')":
         raise TranslationError("AesEncryptorMixin.encrypt: crc expression changed: " + ast.unparse(crcexpr))
+    return "AesFrame.v", out
+
+
+def gen_pad():
+    cr = parse("bec2format/crypto.py")
+    aes = class_consts(cr, "AES128")
+    out = HEADER % "bec2format/crypto.py (pad)"
+    out += "Open Scope N_scope.\n\n"
     # crypto.pad
     padf = find_func(cr, "pad")
     if [ast.unparse(s) for s in padf.body] != [
@@ -557,10 +582,10 @@ def gen_consts():
             "return data + bytes([0] * pad_length)"]:
         raise TranslationError("crypto.pad changed: " + ast.unparse(padf))
     out += "Definition pad_length (len_data : Z) : Z := (Z.modulo (Z.opp len_data) %s).\n" % cZ(aes["BLOCK_SIZE"])
-    return "Consts.v", out
+    return "Pad.v", out
 
 
-GENERATORS = [gen_crc, gen_consts]
+GENERATORS = [gen_crc, gen_tagtypes, gen_aesframe, gen_pad, gen_consts]
 
 
 def all_generators():
